@@ -58,6 +58,11 @@ def gen_tasks(tier, seed):
         if len(es) >= 2:
             c = [list(e) for e in rng.sample(es, 2)]
             tasks.append({**base, "constraints": [c]})
+    # a bottleneck edge that a single covering walk must cross more often than the graph has nodes:
+    # s->a->b->t, b->c_i, every c_i->d_j, d_j->a  (p*q+1 crossings of (a,b), p+q+4 nodes, +2 synthetic) -- exercises the per-walk repetition bound
+    for p, q in ([(2, 2), (3, 5)] if tier == "quick" else [(2, 2), (2, 3), (3, 3), (3, 4), (3, 5), (4, 4), (4, 5)]):
+        es = [("s", "a"), ("a", "b"), ("b", "t")] + [("b", f"c{i}") for i in range(p)] + [(f"c{i}", f"d{j}") for i in range(p) for j in range(q)] + [(f"d{j}", "a") for j in range(q)]
+        tasks.append({"name": f"bottleneck_bipartite_{p}x{q}", "edges": es, "cyc": True, "starts": [], "ends": [], "ignored": [], "constraints": [], "node_mode": False})
     for i, t in enumerate(tasks):
         t["tid"] = i
     return tasks
@@ -73,7 +78,7 @@ def elements(task, G):
 
 def spec_k(task, G, k, tag="S"):
     if task["cyc"]:
-        sp = spec.WalkEuler(G, k, starts=task["starts"], ends=task["ends"], tag=tag, mult_max=max(2, G.number_of_nodes()))
+        sp = spec.WalkEuler(G, k, starts=task["starts"], ends=task["ends"], tag=tag, mult_max=max(2, G.number_of_nodes() * G.number_of_edges()))
         cons = list(sp.cons) + spec.cover(sp, elements(task, G))
         if task["constraints"]:
             cons += spec.subset_constraints_satisfied(sp, task["constraints"])
@@ -375,7 +380,7 @@ RULE = ("one case = (graph, cover type edge/node, ignored elements, additional s
         "obligations: z3 certifies the reference minimum (k_ref sat, all smaller k unsat) on an independent spec; get_width, LP_k feasibility of the real k-cover models, "
         "'every optimal LP answer covers' and the Min* wrappers are compared with it")
 ASSUMPTIONS = [
-    "DAG spec: k enumerated source/start-to-sink/end routes; cyclic spec: k Euler multiplicity vectors (multiplicity <= max(2,|V|), enough for a covering walk on <= 5 nodes) with rank connectivity",
+    "DAG spec: k enumerated source/start-to-sink/end routes; cyclic spec: k Euler multiplicity vectors (multiplicity <= |V|*|E|) with rank connectivity",
     "graph algorithms (network simplex, condensation) run concretely per enumerated graph; the solver decides non-existence of a smaller cover and LP feasibility",
     "DAGs <= 4 nodes (5 in thorough), digraphs <= 3 inner nodes, k <= 5",
 ]
